@@ -263,6 +263,44 @@ func runMCLICase(c MCLICase) mOutcome {
 			}
 		}
 	}
+	// ---- audit: the command writes the audit stream to stderr; one record per call of a mutating
+	// tool (allowed or refused), none for the others, in call order
+	var audits []map[string]any
+	for _, l := range strings.Split(stderr.String(), "\n") {
+		l = strings.TrimSpace(l)
+		if !strings.HasPrefix(l, "{") {
+			continue
+		}
+		var rec map[string]any
+		if json.Unmarshal([]byte(l), &rec) == nil {
+			if _, isAudit := rec["tool"]; isAudit {
+				audits = append(audits, rec)
+			}
+		}
+	}
+	var wantAudit []string
+	for _, tool := range c.Tools {
+		if v := judgeRow(tool, role, c.Mutations, c.Runtime, c.Principal); v.Known && v.Doc.Mutating {
+			wantAudit = append(wantAudit, tool)
+		}
+	}
+	var gotAudit []string
+	for _, rec := range audits {
+		tname, _ := rec["tool"].(string)
+		gotAudit = append(gotAudit, tname)
+	}
+	if strings.Join(gotAudit, ",") != strings.Join(wantAudit, ",") {
+		return finish(mfail("C20", "cli-audit-records", "", "%s: calls %v: audit records on stderr for %v, want one per mutating call: %v\nstderr: %.600s", session, c.Tools, gotAudit, wantAudit, stderr.String()))
+	}
+	for i, rec := range audits {
+		line, _ := json.Marshal(rec)
+		if msg := checkAuditRecord(string(line), MCase{Tool: wantAudit[i], Role: role, Principal: c.Principal}); msg != "" {
+			return finish(mfail("C20", "cli-audit-fields", "", "%s: %s", session, msg))
+		}
+	}
+	if len(wantAudit) > 0 {
+		labels["cli-audit-checked"] = true
+	}
 	if !anyAllowedEffectful && len(diff) > 0 {
 		return finish(mfail("C20", "cli-refused-with-effect", "", "%s: no mutating call of %v was allowed, but the files changed: %v", session, c.Tools, diff))
 	}
